@@ -3,6 +3,10 @@
 //       first calls racing with other first calls still bind correctly.
 // The library is linked as one relocatable object whose writable sections are renamed (isal_data / isal_bss /
 // isal_datarel), so __start_/__stop_ symbols delimit exactly the library's writable static storage.
+// Modes: 0 = snapshot of those sections around every operation (single thread);
+//        1 = real threads, each with its own mixed operation list, vs the same lists run sequentially;
+//        2 = hammer: every thread prepares ONE call of the same family / operation / entry point on its own objects and
+//            repeats it in a tight loop (no allocation inside the loop) so that executions of the same code overlap in time.
 #include "../common/obsops.hpp"
 #include <atomic>
 #include <thread>
@@ -13,15 +17,24 @@ extern uint8_t __start_isal_bss[] __attribute__((weak)), __stop_isal_bss[] __att
 extern uint8_t __start_isal_datarel[] __attribute__((weak)), __stop_isal_datarel[] __attribute__((weak));
 }
 
+struct HammerSpec {
+        std::string kind; // hashfam | mhfam | aes | cat
+        std::string what; // family label / op name / entry name
+        uint64_t seed = 1;
+        uint32_t len = 100;
+        int legacy = 0;
+};
 struct Case {
-        int mode = 0; // 0 = snapshot of the writable sections around every operation; 1 = real threads vs sequential
+        int mode = 0;
         int rearm = 0;
-        std::vector<std::vector<oo::Case>> ops; // per thread (mode 0: one list)
+        int repeat = 1;
+        std::vector<std::vector<oo::Case>> ops; // modes 0/1: per thread (mode 0: one list)
+        std::vector<HammerSpec> hammer;         // mode 2: one spec per thread
 };
 static J to_json(const Case &c)
 {
         J j = J::obj();
-        j.set("mode", c.mode).set("rearm", c.rearm);
+        j.set("mode", c.mode).set("rearm", c.rearm).set("repeat", c.repeat);
         J a = J::arr();
         for (auto &t : c.ops) {
                 J b = J::arr();
@@ -29,6 +42,13 @@ static J to_json(const Case &c)
                 a.push(b);
         }
         j.set("ops", a);
+        J h = J::arr();
+        for (auto &x : c.hammer) {
+                J o = J::obj();
+                o.set("kind", x.kind).set("what", x.what).set("seed", (unsigned long long) x.seed).set("len", x.len).set("legacy", x.legacy);
+                h.push(o);
+        }
+        j.set("hammer", h);
         return j;
 }
 static Case from_json(const J &j)
@@ -36,11 +56,18 @@ static Case from_json(const J &j)
         Case c;
         c.mode = j.num("mode", 0);
         c.rearm = j.num("rearm", 0);
+        c.repeat = j.num("repeat", 1);
         for (auto &t : j.at("ops").a) {
                 std::vector<oo::Case> v;
                 for (auto &o : t.a) v.push_back(oo::from_json(o));
                 c.ops.push_back(v);
         }
+        if (j.has("hammer"))
+                for (auto &o : j.at("hammer").a) {
+                        HammerSpec h;
+                        h.kind = o.at("kind").s; h.what = o.at("what").s; h.seed = o.unum("seed", 1); h.len = (uint32_t) o.unum("len", 100); h.legacy = o.num("legacy", 0);
+                        c.hammer.push_back(h);
+                }
         return c;
 }
 
@@ -86,10 +113,163 @@ static std::vector<void *> bindings_now()
         return v;
 }
 
+// ---- hammer mode
+struct Prepared {
+        guard::Arena A;
+        void *fn = nullptr;
+        uint64_t argv[12] = { 0 };
+        int nargs = 0;
+        std::vector<std::pair<uint8_t *, std::vector<uint8_t>>> restore; // writable buffers and their initial contents
+        std::vector<std::pair<uint8_t *, size_t>> outs;
+        const isal::HashFamily *hf = nullptr;
+        const mh::Fam *mf = nullptr;
+        uint8_t *mgr = nullptr, *cx = nullptr, *msg = nullptr, *dg = nullptr;
+        uint32_t len = 0;
+        bool ret_meaningful = false;
+};
+static bool prepare(const HammerSpec &h, Prepared &P, pbt::Ctx &ctx)
+{
+        if (h.kind == "hashfam") {
+                for (auto &f : oo::g_hash)
+                        if (f.label() == h.what) P.hf = &f;
+                if (!P.hf || P.hf->is_isal()) return false;
+                const isal::AlgoDesc &D = isal::algo_desc[P.hf->algo];
+                P.mgr = P.A.alloc("mgr", D.mgr_size, 64, guard::END, 0x5a);
+                P.cx = P.A.alloc("ctx", D.ctx_size, 64, guard::END, 0x3c);
+                P.msg = P.A.alloc("msg", h.len, 1, guard::END);
+                pbt::expand(h.seed, P.msg, h.len);
+                P.len = h.len;
+                P.hf->init(P.mgr);
+                return true;
+        }
+        if (h.kind == "mhfam") {
+                for (auto &f : oo::g_mh)
+                        if (f.label() == h.what) P.mf = &f;
+                if (!P.mf) return false;
+                P.cx = P.A.alloc("ctx", mh::ctx_size(P.mf->kind), 16, guard::END, 0x3c);
+                P.msg = P.A.alloc("msg", h.len, 1, guard::END);
+                pbt::expand(h.seed, P.msg, h.len);
+                P.len = h.len;
+                P.dg = P.A.alloc("digest", 64, 4, guard::END, 1);
+                return true;
+        }
+        if (h.kind == "aes") {
+                aops::Case ac;
+                ac.op = h.what;
+                ac.seed = h.seed;
+                ac.len = h.len;
+                ac.aad_len = h.len % 40;
+                ac.pre_len = (h.what.find("_nt") != std::string::npos) ? 64 : h.len % 23;
+                aops::Built B;
+                if (aops::build(ac, oo::g_O, P.A, B, ctx) != 0) return false;
+                P.fn = B.fn;
+                memcpy(P.argv, B.args, sizeof B.args);
+                P.nargs = B.nargs;
+                P.outs = B.outs;
+        } else {
+                const ent::Entry *e = nullptr;
+                for (auto &x : oo::g_entries)
+                        if (x.name == h.what) e = &x;
+                if (!e) return false;
+                ent::Params p;
+                p.seed = h.seed; p.len = h.len; p.aad_len = h.len % 40; p.legacy = h.legacy && !e->legacy.empty();
+                p.w = 1 + h.seed % 48; p.mask = 0x1f;
+                if (h.what.find("_nt") != std::string::npos) p.len = p.len / 64 * 64;
+                if (e->group == "cbc") p.len = p.len / 16 * 16;
+                if (e->group == "xts" && p.len < 16) p.len = 16;
+                ent::Call call;
+                if (!e->build(P.A, p, call)) return false;
+                P.fn = call.fn;
+                memcpy(P.argv, call.argv, sizeof call.argv);
+                P.nargs = call.nargs;
+                // declared outputs only: objects (manager, contexts, key data, states) have opaque parts that legitimately hold scratch values
+                for (int i = 0; i < call.nargs; i++)
+                        if (call.desc[i].kind == ent::OUT) P.outs.emplace_back(call.desc[i].ptr, call.desc[i].size);
+                P.ret_meaningful = call.returns_int;
+        }
+        for (auto &b : P.A.bufs)
+                if (!b.readonly && b.len) P.restore.emplace_back(b.p, std::vector<uint8_t>(b.p, b.p + b.len));
+        return true;
+}
+static void hammer_once(Prepared &P, std::vector<uint8_t> &obs)
+{
+        obs.clear();
+        if (P.hf) {
+                isal::ctx_init(P.hf->algo, P.cx);
+                void *r = P.hf->submit(P.mgr, P.cx, P.msg, P.len, ISAL_HASH_ENTIRE);
+                int guardn = 0;
+                while (!r && guardn++ < 64) r = P.hf->flush(P.mgr);
+                obs = ref::digest_from_words(P.hf->algo, isal::ctx_digest(P.hf->algo, P.cx));
+                return;
+        }
+        if (P.mf) {
+                if (P.mf->kind == mh::MH_MURMUR) ((mh::init_seed_fn) P.mf->init)(P.cx, 77);
+                else ((mh::init_fn) P.mf->init)(P.cx);
+                ((mh::update_fn) P.mf->update)(P.cx, P.msg, P.len);
+                if (P.mf->kind == mh::MH_MURMUR) ((mh::final2_fn) P.mf->finalize)(P.cx, P.dg, P.dg + 32);
+                else ((mh::final_fn) P.mf->finalize)(P.cx, P.dg);
+                obs.assign(P.dg, P.dg + 48);
+                return;
+        }
+        for (auto &r : P.restore) memcpy(r.first, r.second.data(), r.second.size());
+        uint64_t ret = isal::call_fn(P.fn, { P.argv[0], P.argv[1], P.argv[2], P.argv[3], P.argv[4], P.argv[5], P.argv[6], P.argv[7], P.argv[8], P.argv[9] });
+        if (P.ret_meaningful) obs.insert(obs.end(), (uint8_t *) &ret, (uint8_t *) &ret + 4);
+        for (auto &o : P.outs) obs.insert(obs.end(), o.first, o.first + o.second);
+}
+
+static bool run_hammer(const Case &c, pbt::Ctx &ctx)
+{
+        size_t n = c.hammer.size();
+        std::vector<std::unique_ptr<Prepared>> P(n);
+        std::vector<std::vector<uint8_t>> alone(n);
+        for (size_t t = 0; t < n; t++) {
+                P[t].reset(new Prepared());
+                if (!prepare(c.hammer[t], *P[t], ctx)) { ctx.label("hammer-skipped"); return true; }
+                hammer_once(*P[t], alone[t]); // the run-alone result
+                std::vector<uint8_t> again;
+                hammer_once(*P[t], again);
+                if (again != alone[t]) { ctx.label("hammer-not-repeatable-alone(skipped)"); return true; } // operation not idempotent under restore: not usable here
+                if (P[t]->hf) {
+                        std::vector<uint8_t> want = ref::hash(P[t]->hf->algo, P[t]->msg, P[t]->len);
+                        if (alone[t] != want && ctx.fail("digest|" + c.hammer[t].what, c.hammer[t].what + ": run-alone digest wrong")) return false;
+                }
+        }
+        if (c.rearm) rearm_all();
+        std::atomic<int> ready{ 0 };
+        std::atomic<bool> go{ false };
+        std::vector<int> bad_iter(n, -1);
+        std::vector<std::thread> th;
+        for (size_t t = 0; t < n; t++)
+                th.emplace_back([&, t] {
+                        std::vector<uint8_t> obs;
+                        ready++;
+                        while (!go.load()) {}
+                        for (int i = 0; i < c.repeat; i++) {
+                                hammer_once(*P[t], obs);
+                                if (obs != alone[t]) { bad_iter[t] = i; break; }
+                        }
+                });
+        while (ready.load() < (int) n) {}
+        go.store(true);
+        for (auto &x : th) x.join();
+        ctx.label("hammer=" + c.hammer[0].kind);
+        ctx.label("hammer_iterations", (uint64_t) c.repeat * n);
+        for (size_t t = 0; t < n; t++)
+                if (bad_iter[t] >= 0)
+                        if (ctx.fail("interference|" + c.hammer[t].what, c.hammer[t].what + ": thread " + std::to_string(t) + " of " + std::to_string(n) + " got a different result in iteration " +
+                                                                                 std::to_string(bad_iter[t]) + " than when run alone (all threads execute the same code on their own objects)"))
+                                return false;
+        return true;
+}
+
 static bool run(const Case &c, pbt::Ctx &ctx)
 {
         oo::g_use_tramp = false;
-        ctx.label(c.mode ? "mode=threads" : "mode=snapshot");
+        ctx.label(c.mode == 2 ? "mode=hammer" : c.mode ? "mode=threads" : "mode=snapshot");
+        if (c.mode == 2) {
+                ctx.nontrivial = true;
+                return run_hammer(c, ctx);
+        }
         std::set<std::string> units;
         for (auto &t : c.ops)
                 for (auto &o : t) units.insert(o.kind);
@@ -192,10 +372,34 @@ int main(int argc, char **argv)
         P.gen = [](pbt::Ctx &ctx) {
                 using namespace pbt;
                 Case c;
-                c.mode = coin(1, 2);
+                c.mode = weighted({ 3, 1, 4 });
                 c.rearm = coin(1, 2);
                 int maxthreads = (int) ctx.optnum("maxthreads", 8);
                 int n = c.mode ? rng<int>(2, maxthreads) : 1;
+                if (c.mode == 2) {
+                        c.repeat = rng<int>(50, 1500);
+                        HammerSpec h;
+                        switch (weighted({ 5, 2, 4, 3 })) {
+                        case 0: {
+                                h.kind = "hashfam";
+                                std::vector<std::string> fams;
+                                for (auto &f : oo::g_hash)
+                                        if (!f.is_isal()) fams.push_back(f.label());
+                                h.what = fams[rng<size_t>(0, fams.size() - 1)];
+                                break;
+                        }
+                        case 1: h.kind = "mhfam"; h.what = oo::g_mh[rng<size_t>(0, oo::g_mh.size() - 1)].label(); break;
+                        case 2: h.kind = "aes"; h.what = oo::g_O.names[rng<size_t>(0, oo::g_O.names.size() - 1)]; break;
+                        default: h.kind = "cat"; h.what = oo::g_entries[rng<size_t>(0, oo::g_entries.size() - 1)].name; h.legacy = coin(1, 3); break;
+                        }
+                        for (int t = 0; t < n; t++) {
+                                HammerSpec x = h;
+                                x.seed = rng64(1, UINT64_MAX - 8);
+                                x.len = weighted({ 3, 2 }) == 0 ? rng<uint32_t>(1, 250) : rng<uint32_t>(1, 3000);
+                                c.hammer.push_back(x);
+                        }
+                        return c;
+                }
                 for (int t = 0; t < n; t++) {
                         std::vector<oo::Case> v;
                         int k = rng<int>(1, c.mode ? 4 : 6);
